@@ -4,6 +4,7 @@ use crate::ctx::{hex_short, lc, Case, Ctx};
 use crate::gen;
 use crate::oracle::classify;
 use crate::refenc::{self, W};
+use crate::visit::veq;
 use serde_json::json;
 use tls_parser::*;
 
@@ -102,7 +103,7 @@ pub fn run(ctx: &mut Ctx) {
         ctx.count("tls.cases");
         ctx.shape(&(k.min(5), tk, recs.len().min(5), many.is_ok()));
         let good = match &many {
-            Ok((rem, v)) => !recs.is_empty() && *v == recs && rem.len() == buf.len() - off && (rem.is_empty() || rem.as_ptr() as usize == buf.as_ptr() as usize + off),
+            Ok((rem, v)) => !recs.is_empty() && veq(v, &recs) && rem.len() == buf.len() - off && (rem.is_empty() || rem.as_ptr() as usize == buf.as_ptr() as usize + off),
             Err(_) => recs.is_empty(),
         };
         ctx.count(if many.is_ok() { "tls.many.ok" } else { "tls.many.err" });
@@ -395,7 +396,7 @@ pub fn run(ctx: &mut Ctx) {
         ctx.shape(&(k.min(5), tk, recs.len().min(5), many.is_ok()));
         ctx.count(if many.is_ok() { "dtls.many.ok" } else { "dtls.many.err" });
         let good = match &many {
-            Ok((rem, v)) => !recs.is_empty() && *v == recs && rem.len() == buf.len() - off && (rem.is_empty() || rem.as_ptr() as usize == buf.as_ptr() as usize + off),
+            Ok((rem, v)) => !recs.is_empty() && veq(v, &recs) && rem.len() == buf.len() - off && (rem.is_empty() || rem.as_ptr() as usize == buf.as_ptr() as usize + off),
             Err(_) => recs.is_empty(),
         };
         if !good {
